@@ -329,6 +329,53 @@ func TestVerifHTTP(t *testing.T) {
 			out.Fail("C04:http:panic", "http matcher panicked on malformed input: "+emsg, map[string]any{"hex": fmt.Sprintf("%x", g)})
 		}
 	}
+	// HTTP/2 prior-knowledge prefaces followed by frame sequences WITHOUT a usable HEADERS frame:
+	// k frames of the kinds a client may send first (SETTINGS, WINDOW_UPDATE, PING, PRIORITY), also
+	// more than the 10 the matcher is willing to skip, truncated frames, and a HEADERS frame whose
+	// block is garbage or continues in CONTINUATION frames. Never a panic, never Yes.
+	for k := 0; k <= 14; k++ {
+		for variant := 0; variant < 6; variant++ {
+			var b bytes.Buffer
+			b.WriteString("PRI * HTTP/2.0\r\n\r\nSM\r\n\r\n")
+			fr := http2.NewFramer(&b, nil)
+			for j := 0; j < k; j++ {
+				switch (variant + j) % 4 {
+				case 0:
+					_ = fr.WriteSettings()
+				case 1:
+					_ = fr.WriteWindowUpdate(0, 1000)
+				case 2:
+					_ = fr.WritePing(false, [8]byte{1, 2, 3, 4, 5, 6, 7, 8})
+				default:
+					_ = fr.WritePriority(1, http2.PriorityParam{Weight: 1})
+				}
+			}
+			switch variant {
+			case 3: // garbage header block
+				_ = fr.WriteHeaders(http2.HeadersFrameParam{StreamID: 1, BlockFragment: rng.Bytes(20), EndHeaders: true})
+			case 4: // header block continued in a CONTINUATION frame
+				var hb bytes.Buffer
+				enc := hpack.NewEncoder(&hb)
+				_ = enc.WriteField(hpack.HeaderField{Name: ":method", Value: "GET"})
+				_ = enc.WriteField(hpack.HeaderField{Name: ":path", Value: "/"})
+				full := hb.Bytes()
+				_ = fr.WriteHeaders(http2.HeadersFrameParam{StreamID: 1, BlockFragment: full[:1], EndHeaders: false})
+				_ = fr.WriteContinuation(1, true, full[1:])
+			case 5: // truncated last frame
+				if b.Len() > 30 {
+					b.Truncate(b.Len() - 3)
+				}
+			}
+			data := b.Bytes()
+			v, _, _, emsg := vhEval(mk(vhFilter{}), data)
+			evals++
+			if v == vhPanic {
+				out.Fail("C04:http:panic", "http matcher panicked on an HTTP/2 preface followed by frames without a usable HEADERS frame: "+emsg,
+					map[string]any{"frames": k, "variant": variant, "hex": fmt.Sprintf("%x", data)})
+			}
+			out.Case("", "http2-noheaders", k >= 10, map[string]any{"frames": k, "variant": variant, "verdict": vhNames[v]})
+		}
+	}
 	out.Stat("evaluations", evals)
 }
 
